@@ -123,6 +123,8 @@ def scan_repo(root):
         if isinstance(e, ast.Name):
             return (e.id in local or e.id in GLOBAL or e.id.endswith("_set")) and e.id not in NOTSET[-1]
         if isinstance(e, ast.Attribute):
+            if isinstance(e.value, ast.Name) and e.value.id == "self" and e.attr in CLASS_NOTSET[-1]:
+                return False        # the class at hand declares this attribute with a type that is not a set
             return e.attr in GLOBAL or e.attr in local
         if isinstance(e, ast.Subscript):
             return dict_of_sets(e.value, LOCAL_DOS[-1])
@@ -131,6 +133,7 @@ def scan_repo(root):
         return False
 
     LOCAL_DOS = [set()]
+    CLASS_NOTSET = [set()]   # attributes the class at hand annotates (class body) with a type that is not a set
     NOTSET = [set()]     # locals of the function at hand that are annotated with / bound to something that is not a set
     sites = []
     def _is_id_call(e):
@@ -159,7 +162,11 @@ def scan_repo(root):
                 return ".".join(s.stack) or "<module>"
 
             def visit_ClassDef(s, n):
+                decl = {m.target.id for m in n.body if isinstance(m, ast.AnnAssign) and isinstance(m.target, ast.Name)
+                        and not _is_set_ann(m.annotation)}
+                CLASS_NOTSET.append(decl)
                 s.stack.append(n.name); s.generic_visit(n); s.stack.pop()
+                CLASS_NOTSET.pop()
 
             def visit_FunctionDef(s, n):
                 s.stack.append(n.name)
